@@ -206,6 +206,15 @@ def main():
                                    real=vlib.clip(vlib.get_line(pre + ".real", n), 20000),
                                    model=vlib.clip(vlib.get_line(pre + ".model", n), 20000), found_input=False))
 
+    if args.replay and rp.get("case_index") and stream_results:
+        r0 = stream_results[0]
+        n0 = rp["case_index"]
+        print(f"--- replayed case {n0} of stream {r0['stream']} (seed {seed}, tier {tier}) ---")
+        print("op    :", vlib.clip(vlib.get_line(r0["prefix"] + ".ops", n0), 600))
+        print("real  :", vlib.clip(vlib.get_line(r0["prefix"] + ".real", n0), 400))
+        print("model :", vlib.clip(vlib.get_line(r0["prefix"] + ".model", n0), 400))
+        print("oracle:", vlib.get_line(r0["prefix"] + ".oracle", n0))
+
     # 4. proof obligations broken -> search for a failing input --------------------------------
     for (t, why) in broken_theorems:
         violations.append(dict(kind="proof", theorem=t, detail=why, found_input=False))
